@@ -93,7 +93,12 @@ impl Deduplicator {
     /// Returns `Some((duplicate_out, canonical_out))` when `op` duplicates an earlier ALU.
     fn detect_duplicate<F: Field>(&mut self, op: &Op<F>) -> Option<(WitnessId, WitnessId)> {
         let Op::Alu {
-            kind, a, b, c, out, ..
+            kind,
+            a,
+            b,
+            c,
+            out,
+            intermediate_out,
         } = op
         else {
             return None;
@@ -104,7 +109,8 @@ impl Deduplicator {
             a.resolve(&self.rewrite),
             b.resolve(&self.rewrite),
             c.map(|id| id.resolve(&self.rewrite)),
-        );
+        )
+        .with_accumulator(intermediate_out.map(|id| id.resolve(&self.rewrite)));
 
         if let Some(&canonical) = self.seen.get(&key) {
             Some((*out, canonical))
